@@ -15,6 +15,7 @@ import (
 	"runtime"
 	"runtime/debug"
 	"sort"
+	"strconv"
 	"strings"
 	"sync"
 	"time"
@@ -377,6 +378,13 @@ func Main(props ...*Prop) {
 			res := runCase(p, *seed, *tier, i, *scratch, *one >= 0)
 			enc.Encode(res)
 			ran++
+			// A race-detector build never gives shadow memory back (dkvmon: ~20 MB per case): when the process has
+			// grown past the limit it stops here and the driver continues the shard in a fresh process.
+			if *out != "" && *one < 0 && ran%8 == 0 && rssMB() > maxRSSMB() {
+				os.Remove(*out + ".cur")
+				os.WriteFile(*out+".next", []byte(strconv.Itoa(i+1)), 0o644)
+				return
+			}
 		}
 		if *out != "" {
 			os.Remove(*out + ".cur")
@@ -386,6 +394,26 @@ func Main(props ...*Prop) {
 	if ran == 0 && *one >= 0 {
 		HarnessBug("no such case")
 	}
+}
+
+func rssMB() int {
+	b, err := os.ReadFile("/proc/self/statm")
+	if err != nil {
+		return 0
+	}
+	f := strings.Fields(string(b))
+	if len(f) < 2 {
+		return 0
+	}
+	pages, _ := strconv.Atoi(f[1])
+	return pages * os.Getpagesize() >> 20
+}
+
+func maxRSSMB() int {
+	if v, err := strconv.Atoi(os.Getenv("VERIF_MAX_RSS_MB")); err == nil && v > 0 {
+		return v
+	}
+	return 1500
 }
 
 // GCSettle forces collection rounds and waits for the cleanup queue to drain (sentinel cleanups):
